@@ -406,6 +406,13 @@ class DiscriminatedUnionUnpackerBuilder(AbstractUnpackerBuilder):
                     f"raise MissingDiscriminatorError({discriminator.field!r})"
                     " from None"
                 )
+            with lines.indent("except TypeError:"):
+                # a non-mapping argument, as for any other dataclass
+                message = (
+                    f"Argument for {type_name(spec.type)} "
+                    "should be a dict instance"
+                )
+                lines.append(f"raise ValueError({message!r}) from None")
             with lines.indent("try:"):
                 if spec.builder.is_nailed:
                     lines.append(f"variant = {chosen_cls}")
